@@ -17,11 +17,12 @@ import Driver.Navigation
 import Driver.Frontends
 import Driver.TreeIO
 import Driver.RuleIO
+import Driver.Loader
 
 open Lean Driver
 
 def allOps : List (String × Handler) :=
-  notationOps ++ indentOps ++ printOps ++ suppressOps ++ spliceOps ++ topoOps ++ selectOps ++ workerOps ++ lspOps ++ frontendsOps
+  notationOps ++ indentOps ++ printOps ++ suppressOps ++ spliceOps ++ topoOps ++ selectOps ++ workerOps ++ lspOps ++ frontendsOps ++ loaderOps
 
 /-- ops that read or extend the driver state (registered documents) -/
 def allStateOps : List (String × SHandler) :=
